@@ -307,6 +307,14 @@ def obs(x, B, seen=None, with_ident=True, light=False):
         return ["T", ident(B, x) if with_ident else "-", int(x.data), meta_obs(x)]
     if id(x) in seen:
         return "cyclic"
+    if isinstance(x, LazyStackedTensorDict):
+        # a lazy stack is observed as its members, side by side
+        try:
+            m = meta_obs(x)
+        except Exception:  # noqa: BLE001
+            m = ["?", None, None, False]
+        return ["N", ident(B, x) if with_ident else "-", m,
+                [["#%d" % i, obs(t, B, seen + (id(x),), with_ident, light)] for i, t in enumerate(x.tensordicts)]]
     td = x
     if hasattr(x, "_tensordict") and not isinstance(x, (TensorDict, LazyStackedTensorDict, TensorDictParams)):
         td = x._tensordict          # tensorclass: observed as its tensordict
